@@ -1760,6 +1760,13 @@ func genExits(repo, out string) {
 					if i := strings.LastIndex(fn, "."); i >= 0 {
 						name = fn[i+1:]
 					}
+					// the sleep: which variable holds the calls about to be retried at that point is the
+					// loop's business (and the scenarios'); the fact is that their contexts are merged in
+					if fn == "sleepAndIncreaseBackoff" && strings.HasPrefix(a, "contextOfCalls(") {
+						if j := strings.LastIndex(a, ", "); j >= 0 {
+							a = a[:j] + ", _)"
+						}
+					}
 					sbWaits = append(sbWaits, name+":"+a)
 				}
 			}
